@@ -770,6 +770,17 @@ def fam_hostile(r, n):
         depth = r.randint(30, 120)
         lines += ["DEEP = %s1%s" % ("[" * depth, "]" * depth), "",
                   "def host_%d() -> None:" % n, "    reveal_type(DEEP)", "    x = %s0%s" % ("(" * 40, ")" * 40), "    reveal_type(x)", "    y = %s" % " + ".join(["1"] * r.randint(50, 200)), "    reveal_type(y)", ""]
+    elif kind == 3 and r.chance(0.5):
+        # an expression nested deeper than the interpreter's recursion limit allows the checker to
+        # follow: RecursionError is raised (and caught as internal_error) at whatever point the
+        # stack happens to run out - inside protocol checks, overload resolution, ...
+        terms = r.randint(260, 460)
+        conv = r.choice(["int", "float", "len", "str", "bytes", "abs"])
+        lines += ["# exhausts the recursion limit; where the checker gives up depends on cache warmth",
+                  "VERIF_PREDECESSOR_ONLY = True",
+                  "def host_%d(rec: dict, s: str, xs: List[str]) -> None:" % n,
+                  "    total = %s" % " + ".join("%s(rec[\"f%d\"])" % (conv, i) for i in range(terms)),
+                  "    reveal_type(total)", "    flat = %s" % " or ".join("s.startswith(\"%d\")" % i for i in range(r.randint(200, 400))), "    reveal_type(flat)", ""]
     elif kind == 3:
         lines += ["class Prop:", "    @property", "    def boom(self) -> int:", "        raise ValueError(\"boom %d\")" % n, "", "PROP = Prop()", "",
                   "def host_%d() -> None:" % n, "    reveal_type(PROP.boom)", "    reveal_type(PROP.missing)", "    PROP.boom = 1", ""]
